@@ -616,7 +616,7 @@ fn check_image(ic: &ImageCheck, img: &DirImage, sides: &Sides, t: u64, what: &st
     let (opened, rtrace) = record(|| {
         std::panic::catch_unwind(std::panic::AssertUnwindSafe(|| open_nomt::<B3>(dir, ic.cfg)))
     });
-    let n = match opened {
+    let mut n = match opened {
         Err(_) => {
             return Err(viol(
                 "recovery-panic",
@@ -679,6 +679,15 @@ fn check_image(ic: &ImageCheck, img: &DirImage, sides: &Sides, t: u64, what: &st
         }
         model.commit(&driver::writes_of(&batch));
         audit::<B3>(&n, &model, ic.uni, AuditFlags::ALL).map_err(|m| viol("follow-up", format!("{what}: after a follow-up commit: {m}")))?;
+        // the follow-up commit must leave a directory that opens again (before a rollback tidies
+        // the log): a record appended behind a stale one only shows at the NEXT open
+        drop(n);
+        n = match std::panic::catch_unwind(std::panic::AssertUnwindSafe(|| driver::open_nomt_retry::<B3>(dir, ic.cfg, 10))) {
+            Err(_) => return Err(viol("reopen-after-follow-up", format!("{what}: after recovery and a follow-up commit, Nomt::open panicked (at {})", crate::last_panic_location()))),
+            Ok(Err(e)) => return Err(viol("reopen-after-follow-up", format!("{what}: after recovery and a follow-up commit, the directory does not open again: {e:#}"))),
+            Ok(Ok(n2)) => n2,
+        };
+        audit::<B3>(&n, &model, ic.uni, AuditFlags::ALL).map_err(|m| viol("reopen-after-follow-up", format!("{what}: after recovery, a follow-up commit and another reopen: {m}")))?;
         if ic.cfg.rollback && model.can_serve(1) {
             match n.rollback(1) {
                 Ok(()) => {
@@ -694,6 +703,17 @@ fn check_image(ic: &ImageCheck, img: &DirImage, sides: &Sides, t: u64, what: &st
         }
     }
     drop(n);
+    // what the follow-up left behind must open again (a second record appended behind a stale
+    // one, a log tail that was not cut at the first open … only show at the NEXT open)
+    if ic.follow_up {
+        match std::panic::catch_unwind(std::panic::AssertUnwindSafe(|| driver::open_nomt_retry::<B3>(dir, ic.cfg, 10))) {
+            Err(_) => return Err(viol("reopen-after-follow-up", format!("{what}: after recovery, a follow-up commit and rollback, Nomt::open panicked (at {})", crate::last_panic_location()))),
+            Ok(Err(e)) => return Err(viol("reopen-after-follow-up", format!("{what}: after recovery, a follow-up commit and rollback, the directory does not open again: {e:#}"))),
+            Ok(Ok(n2)) => {
+                audit::<B3>(&n2, &model, ic.uni, AuditFlags::ALL).map_err(|m| viol("reopen-after-follow-up", format!("{what}: after recovery, a follow-up commit, rollback and another reopen: {m}")))?;
+            }
+        }
+    }
     // nested: crash during the recovery just performed
     if depth == 0 {
         if let Some(mode) = ic.nested {
